@@ -92,6 +92,17 @@ class Material:
         self.server_addr = UDPv4Address(far[0], 8090)
         self.other_addr = UDPv4Address(far[1], 8090)
         self.addr = {"A1": UDPv4Address(far[2], 7001), "A2": UDPv4Address(far[3], 7002), "A3": UDPv4Address(far[4], 7003)}
+        # aliases of A1 / A2: same host another port ("p"), and a host whose IP differs only in bits that the node id
+        # ignores ("m": calc_node_id masks the IP with 03.0f.3f.ff and drops the port) - same key, same node id, but a
+        # different requester address: a token handed to A1 must not be honoured from A1p or A1m
+        for n in ("A1", "A2"):
+            ip, port = self.addr[n]
+            first, rest = ip.split(".", 1)
+            alias_ip = "%d.%s" % (int(first) ^ 0x40, rest)
+            if crc_prefix(alias_ip) != crc_prefix(ip) or alias_ip == ip:
+                raise MachineryError("alias address does not collide in the node id")
+            self.addr[n + "p"] = UDPv4Address(ip, port + 100)
+            self.addr[n + "m"] = UDPv4Address(alias_ip, port)
         self.name_of_addr = {v: n for n, v in self.addr.items()}
         self.far_ips, self.near_ips = far[5:], near
         self.fillers = [(key().pub().key_to_bin(), UDPv4Address(near[j], 9000 + j)) for j in range(9)]
@@ -1046,10 +1057,15 @@ class Scenario:
         if op == "find":
             await self.att_find(node, a, k, name)
             return
-        tk = r.choice(["fresh", "fresh", "fresh", "aging", "stale", "other-addr", "other-key", "foreign", "junk"])
-        if tk == "fresh":
+        tk = r.choice(["fresh", "fresh", "fresh", "aging", "stale", "other-addr", "other-key", "foreign", "junk",
+                       "port-alias", "port-alias", "mask-alias", "mask-alias"])
+        src = m.addr[a]
+        if tk in ("fresh", "port-alias", "mask-alias"):
             token = await self.att_find(node, a, k, name)
             await asyncio.sleep(1.0)
+            if tk != "fresh":
+                # the fresh token of (a, k) presented by the same key from an address with the same node id
+                src = m.addr[a + ("p" if tk == "port-alias" else "m")]
         else:
             token = self.pick_token(tk, name, a, k)
         if token is None:
@@ -1068,7 +1084,7 @@ class Scenario:
             pkt[-1] ^= 0x40
             pkt = bytes(pkt)
             self.count("attacker-badsig")
-        self.net.deliver(self.net.inject(m.addr[a], node.node.address, pkt))
+        self.net.deliver(self.net.inject(src, node.node.address, pkt))
 
     async def honest(self):
         from ipv8.dht import DHTError
@@ -1290,7 +1306,7 @@ GRAPHS = (("DhtStore_tokens.cfg", "disc", ("FindRequest", "RotateSecrets", "Stor
           ("DhtStore_versions.cfg", "dht", ("FindRequest", "StoreRequest", "Clean", "Tick")),
           ("DhtStore_expiry.cfg", "dht", ("FindRequest", "StoreRequest", "LocalStore", "Clean", "Tick", "Discover")),
           ("DhtStore_limits.cfg", "dht", ("FindRequest", "StoreRequest", "Clean", "Tick")))
-BUDGET = {"quick": {"DhtStore_tokens.cfg": 6000, "DhtStore_versions.cfg": 4000, "DhtStore_expiry.cfg": 6000,
+BUDGET = {"quick": {"DhtStore_tokens.cfg": 8000, "DhtStore_versions.cfg": 4000, "DhtStore_expiry.cfg": 6000,
                     "DhtStore_limits.cfg": 3000}}
 
 
@@ -1313,7 +1329,8 @@ def _run(ctx, tier, seed, replay):
     classes = {"dht": DHTCommunity, "disc": DHTDiscoveryCommunity}
     quick = tier == "quick"
     ctx.cov["rule"] = (
-        "R: every transition of the TLC state graphs of DhtStore.tla (tokens x requesters x rotations; versions x signers x "
+        "R: every transition of the TLC state graphs of DhtStore.tla (tokens x requesters incl. same-key aliases of an address "
+        "that share its node id (other port / IP bits the id masks away) x rotations; versions x signers x "
         "forgeries; lifetimes x clock x maintenance; size/count limits) is executed on a real node (quick: seeded sample of "
         "the transitions, thorough: complete edge cover + simulated behaviours of the large configuration) and Storage / "
         "token window / peer table compared with the TLC state; T: recorded histories of three real nodes in a 15-node "
